@@ -15,7 +15,9 @@ func init() {
 		defer d.Close()
 		scripts := append([]tf.Script{}, c.Scripts...)
 		for i := 0; i < c.NRand; i++ {
-			if c.Mode == "c07" {
+			if c.Mode == "c07" && i%4 == 3 {
+				scripts = append(scripts, fam_restake.JailScriptC07(c.Rng))
+			} else if c.Mode == "c07" {
 				scripts = append(scripts, fam_restake.RandomScriptC07(c.Rng))
 			} else if i%3 == 2 {
 				scripts = append(scripts, fam_restake.JailScript(c.Rng))
